@@ -239,7 +239,20 @@ def reg3(ctx: Ctx) -> None:
     code_test = [c for c in ast.walk(outer[0]) if isinstance(c, ast.Call) and norm(c.func) == "isinstance" and len(c.args) == 2 and "CodeType" in norm(c.args[1])]
     raises = [r for r in ast.walk(outer[0]) if isinstance(r, ast.Raise)]
     if not inner:
-        ctx.R.undecided("REG-3", "nested-name lookup no longer iterates over co_consts in a recognisable way")
+        # candidates produced by a helper: the search must stay one level deep (the direct children of the current code object)
+        deep = None
+        for l_ in [x for x in ast.walk(outer[0]) if isinstance(x, ast.For) and x is not outer[0] and isinstance(x.iter, ast.Call)]:
+            cal = ctx.P.resolve_call(mod, l_.iter)
+            hq = cal.name.split(".")[-1] if cal.kind == "pkg" else None
+            if hq and mod.has(hq):
+                hf = mod.fn(hq)
+                if "co_consts" in norm(hf) and any(isinstance(c, ast.Call) and isinstance(c.func, ast.Name) and c.func.id == hf.name for c in ast.walk(hf)):
+                    deep = (l_, hf.name)
+        if deep:
+            ctx.R.fail("REG-3", mod, deep[0], f"nested names are searched among everything {deep[1]}() yields, which recurses into nested code objects: a name that is also defined deeper inside an earlier sibling "
+                       "resolves to that definition instead of the direct child, so a registration binds to a code object that is not the one that runs", construct="nested-name lookup descends more than one level")
+        else:
+            ctx.R.undecided("REG-3", "nested-name lookup no longer iterates over co_consts in a recognisable way")
     elif not name_cmp:
         ctx.R.fail("REG-3", mod, outer[0], f"nested names are looked up in co_consts without comparing co_name with the requested name: the first nested code object is taken whatever it is called",
                    construct="nested-name lookup: co_name comparison missing")
